@@ -52,6 +52,7 @@ impl Registry {
     }
 }
 
+pub const QUALIFIED_PREFERS: &str = "kip://profiles/cognitive-memory@2.0.0/prefers";
 pub const NAMES: [&str; 6] = ["Alice", "Bob", "Carol", "Dark", "Light", "Quiet"];
 pub const KEYS: [&str; 4] = ["k:one", "k:two", "k:three", "k:four"];
 
@@ -118,7 +119,9 @@ pub fn generate(rng: &mut Rng, reg: &Registry) -> Stmt {
             clauses.push(concept_clause(rng, "s", false).replace("\"Preference\"", "\"Person\"").replace("\"Event\"", "\"Person\""));
             clauses.push(concept_clause(rng, "o", false));
             let ev0 = if rng.chance(1, 5) { " EXPECT VERSION 0" } else { "" };
-            clauses.push(format!("ENSURE PROPOSITION ?p (?s, \"prefers\", ?o){ev0}"));
+            // the same predicate under its bare and its fully qualified spelling
+            let pred = if rng.chance(1, 4) { QUALIFIED_PREFERS } else { "prefers" };
+            clauses.push(format!("ENSURE PROPOSITION ?p (?s, \"{pred}\", ?o){ev0}"));
             clauses.push(assertion_clause_citing("a", "?p", "?s", rng, &reg.evidence));
             if rng.chance(1, 3) {
                 let p2 = any_concept(rng);
@@ -131,7 +134,8 @@ pub fn generate(rng: &mut Rng, reg: &Registry) -> Stmt {
             }
             if rng.chance(1, 6) {
                 // the same new tuple ensured twice in one block: one element, or a clean refusal
-                clauses.push("ENSURE PROPOSITION ?p2 (?s, \"prefers\", ?o)".to_string());
+                let pred2 = if rng.bool() { QUALIFIED_PREFERS } else { "prefers" };
+                clauses.push(format!("ENSURE PROPOSITION ?p2 (?s, \"{pred2}\", ?o)"));
             }
             if rng.chance(2, 5) {
                 let bad = match rng.below(4) {
@@ -164,7 +168,8 @@ pub fn generate(rng: &mut Rng, reg: &Registry) -> Stmt {
             let (sp, op) = (bind("s", &s), bind("o", &o));
             let conf = ["0.95", "0.5", "0.2"][rng.usize(3)];
             let stance = *rng.pick(&["support", "reject"]);
-            ("assert-sugar", format!("ASSERT ({sp}, \"prefers\", {op}) {{ by: {sp}, mode: \"stated\", confidence: {conf}, stance: \"{stance}\" }}"))
+            let pred = if rng.chance(1, 4) { QUALIFIED_PREFERS } else { "prefers" };
+            ("assert-sugar", format!("ASSERT ({sp}, \"{pred}\", {op}) {{ by: {sp}, mode: \"stated\", confidence: {conf}, stance: \"{stance}\" }}"))
         }
         4 => {
             let target = any_concept(rng);
@@ -190,7 +195,11 @@ pub fn generate(rng: &mut Rng, reg: &Registry) -> Stmt {
             ("retract", format!("RETRACT ASSERTION \"{a}\"{es}"))
         }
         7 => {
-            let c = any_concept(rng);
+            let c = match rng.below(4) {
+                0 if !reg.props.is_empty() => reg.props[rng.usize(reg.props.len())].clone(),
+                1 if !reg.assertions.is_empty() => reg.assertions[rng.usize(reg.assertions.len())].clone(),
+                _ => any_concept(rng),
+            };
             let verb = *rng.pick(&["ARCHIVE", "TOMBSTONE"]);
             let es = if rng.chance(1, 3) { " EXPECT STATE \"active\"" } else { "" };
             ("lifecycle", format!("{verb} \"{c}\"{es}"))
